@@ -1,6 +1,6 @@
 (* C19 — proofs about Time/Model.v *)
 From Coq Require Import QArith Qround Qabs ZArith Lia Lqa String.
-From NV Require Import Time.Model.
+From NV Require Import Gen.TimeLimits Time.Model.
 Local Open Scope Q_scope.
 
 Lemma floor_bounds : forall x, inject_Z (Qfloor x) <= x /\ x < inject_Z (Qfloor x) + 1.
@@ -115,3 +115,12 @@ Proof.
   destruct (add_sub t q t' Ht E) as (sn & _ & _ & Hs & _ & Hd).
   rewrite Hs. split; [reflexivity|exact Hd].
 Qed.
+
+(* table lemma over the generated constants (Gen/TimeLimits.v): the supported range contains the
+   Unix epoch and is far larger than a nanosecond, the sub-second part of the largest timestamp is a
+   proper sub-second part, and the span limit is positive and below the i64 range — so the range
+   checks of the model are not vacuous and `Z.abs s >? i64_max` can only fire beyond the span limit *)
+Lemma limits_sane :
+  (ts_min < 0 < ts_max)%Z /\ (0 <= gen_ts_max_subsec_ns < ns_per_s)%Z /\ (0 < span_sec_max < i64_max)%Z
+  /\ in_range 0 = true /\ in_range (ts_max + 1) = false /\ in_range (ts_min - 1) = false.
+Proof. vm_compute. repeat split; reflexivity || discriminate. Qed.
